@@ -282,9 +282,19 @@ def fmt_cases(rng, deep: bool) -> Iterable[Tuple[str, List[int], List[int], int]
 # running: the real code in worker processes, the Lean driver in the parent
 # ------------------------------------------------------------------------------------------------
 
+_STOP: Any = None      # multiprocessing.Event of the pool this worker belongs to: set = give back the remaining chunks unrun
+
+
+def _init_worker(ev) -> None:
+    global _STOP
+    _STOP = ev
+
+
 def _work(chunk: List[Tuple[str, str, Any]]) -> List[Tuple[str, str, Any, List[str], Dict[str, Any]]]:
     out = []
     for cid, kind, case in chunk:
+        if _STOP is not None and _STOP.is_set():
+            break
         if kind == "S":
             obs = D.run_sched_case(case)
             out.append((cid, kind, case, D.sched_block(cid, case, obs),
@@ -296,6 +306,8 @@ def _work(chunk: List[Tuple[str, str, Any]]) -> List[Tuple[str, str, Any, List[s
                         {"status": obs["status"], "warn": obs["warn"], "wexc": obs["wexc"], "rexc": obs["rexc"],
                          "trace": obs["trace"], "files": obs["files"], "fired": obs["fired"], "wdead": obs["wdead"],
                          "audit": obs["audit"]}))
+        elif kind == "M":
+            out.append((cid, kind, case, [], D.multi_session_check(*case)))
         else:
             o = D.run_fmt_case(*case)
             out.append((cid, kind, case, D.fmt_block(cid, o), {"exc": o["exc"], "n": len(o["msgs"])}))
@@ -367,18 +379,12 @@ def _account(res: C.Result, cid: str, kind: str, case: Any, blk: List[str], meta
         _bump(X["fmt_paths"], "direct finalize (no write before)" if not sizes else "temp-file path / multi-write")
 
 
-def _feed(res: C.Result, items: List[Tuple[str, str, Any]], pool) -> None:
-    if not items:
-        return
-    nproc = pool._processes if pool else 1
-    size = max(1, min(200, len(items) // (nproc * 4) + 1))
-    chunks = [items[i:i + size] for i in range(0, len(items), size)]
-    results = pool.map(_work, chunks) if pool else [_work(c) for c in chunks]
-    flat = [r for rs in results for r in rs]
-    lines: List[str] = []
-    for r in flat:
-        lines += r[3]
-    out = C.parse_driver(C.run_driver("datalog", lines))
+BATCH = 8000     # cases per call of the Lean driver
+
+
+def _settle(res: C.Result, flat: List[Tuple[str, str, Any, List[str], Dict[str, Any]]], out_lines: List[str]) -> None:
+    """verdicts of the driver for one batch of finished cases"""
+    out = C.parse_driver(out_lines)
     for cid, kind, case, blk, meta in flat:
         r = out.get(cid)
         if r is None:
@@ -399,6 +405,78 @@ def _feed(res: C.Result, items: List[Tuple[str, str, Any]], pool) -> None:
                 res.failures.append(C.Failure(clause=cl, case=cc, detail=detail, finding=_finding(cl, cc)))
 
 
+def _multi_session_verdict(res: C.Result, rs: List[Dict[str, Any]]) -> None:
+    ms_bad = []
+    for r in rs:
+        res.evaluations += 1
+        res.extra.setdefault("multi_session_runs", 0)
+        res.extra["multi_session_runs"] += 1
+        fmt, fl = r["fmt"], r["flush_every_update"]
+        if r["exc"]:
+            ms_bad.append((r, f"recording {len(r['sessions'])} raised {r['exc']}"))
+            continue
+        for si, sess in enumerate(r["sessions"]):
+            if sess["sent"] != sess["read"]:
+                ms_bad.append((r, f"recording {si} ({fmt}, flush_every_update={fl}): sent {sess['sent']}, the file(s) "
+                                  f"{sess['files']} contain {sess['read'][:14]}"))
+                break
+    for r, what in ms_bad[:2]:
+        res.failures.append(C.Failure(clause="several_recordings_with_one_collection: " + what[:150],
+                                      case={"multi_session": {"fmt": r["fmt"], "flush_every_update": r["flush_every_update"]}},
+                                      detail=what))
+
+
+def _feed(res: C.Result, items: List[Tuple[str, str, Any]], pool, until_failure: bool = False) -> None:
+    """The real code runs in the worker processes, chunk by chunk in the order of `items`; as soon as BATCH cases are
+    back they go to the Lean driver in a background thread while the workers go on with the next chunks (the driver
+    used to run between two barriers of the pool).  `until_failure`: stop feeding once a batch showed a failure of
+    the Spec on the implementation that is not a recorded finding."""
+    if not items:
+        return
+    from concurrent.futures import ThreadPoolExecutor
+    nproc = pool._processes if pool else 1
+    size = max(1, min(60, len(items) // (nproc * 8) + 1))
+    slow = [it for it in items if it[1] == "M"]          # real clock: one chunk each, first
+    rest = [it for it in items if it[1] != "M"]
+    chunks = [[it] for it in slow] + [rest[i:i + size] for i in range(0, len(rest), size)]
+    results = pool.imap(_work, chunks) if pool else map(_work, chunks)
+    multi: List[Dict[str, Any]] = []
+    pending: List[Tuple[List[Any], Any]] = []
+
+    def harvest(block: bool) -> None:
+        while pending and (block or pending[0][1].done()):
+            flat, fut = pending.pop(0)
+            _settle(res, flat, fut.result())
+
+    def launch(ex, flat) -> None:
+        lines: List[str] = []
+        for r in flat:
+            lines += r[3]
+        pending.append((flat, ex.submit(C.run_driver, "datalog", lines)))
+
+    with ThreadPoolExecutor(2) as ex:
+        batch: List[Any] = []
+        for rs in results:
+            for r in rs:
+                if r[1] == "M":
+                    multi.append(r[4])
+                else:
+                    batch.append(r)
+            if len(batch) >= BATCH:
+                launch(ex, batch)
+                batch = []
+            harvest(block=False)
+            if until_failure and [f for f in res.failures if not f.finding]:
+                batch = []
+                if pool:
+                    pool._verif_stop.set()      # the chunks still queued come back empty
+                break
+        if batch:
+            launch(ex, batch)
+        harvest(block=True)
+    _multi_session_verdict(res, multi)
+
+
 def _init_extra(res: C.Result):
     for k in ("outcomes", "op_kinds", "formats", "data_sets_per_case", "gate_labels", "branches", "fmt_cases",
               "fmt_paths", "file_bytes_compared", "fine_outcomes", "fine_gate_labels", "fine_branches", "fine_failure_hit_in"):
@@ -406,11 +484,17 @@ def _init_extra(res: C.Result):
 
 
 def _with_pool(fn):
+    D.fast_tmp()
     d = tempfile.mkdtemp(prefix="pyrtma_verif_dldefs_")
     D.write_defs(d)
     os.environ["VERIF_DL_DEFS_DIR"] = d
     nproc = min(16, os.cpu_count() or 2)
-    pool = mp.get_context("fork").Pool(nproc) if nproc > 1 else None
+    pool = None
+    if nproc > 1:
+        ctx = mp.get_context("fork")
+        ev = ctx.Event()
+        pool = ctx.Pool(nproc, initializer=_init_worker, initargs=(ev,))
+        pool._verif_stop = ev
     try:
         return fn(pool)
     finally:
@@ -424,28 +508,11 @@ def _with_pool(fn):
 def run(res: C.Result, deep: bool):
     _init_extra(res)
 
-    # several recordings with one DataCollection object (real threads, real clock; sequential use, no race involved)
-    ms_bad = []
-    for fmt in ("raw", "json", "quicklogger"):
-        for fl in (False, True):
-            r = D.multi_session_check(fmt, fl)
-            res.evaluations += 1
-            res.extra.setdefault("multi_session_runs", 0)
-            res.extra["multi_session_runs"] += 1
-            if r["exc"]:
-                ms_bad.append((r, f"recording {len(r['sessions'])} raised {r['exc']}"))
-                continue
-            for si, sess in enumerate(r["sessions"]):
-                if sess["sent"] != sess["read"]:
-                    ms_bad.append((r, f"recording {si} ({fmt}, flush_every_update={fl}): sent {sess['sent']}, the file(s) "
-                                      f"{sess['files']} contain {sess['read'][:14]}"))
-                    break
-    for r, what in ms_bad[:2]:
-        res.failures.append(C.Failure(clause="several_recordings_with_one_collection: " + what[:150],
-                                      case={"multi_session": {"fmt": r["fmt"], "flush_every_update": r["flush_every_update"]}},
-                                      detail=what))
+    # several recordings with one DataCollection object (real threads, real clock; sequential use, no race involved):
+    # six items of kind M, run by the workers next to everything else
     rng = C.rng_for(res.seed, "C17" + ("deep" if deep else ""))
-    items: List[Tuple[str, str, Any]] = []
+    items: List[Tuple[str, str, Any]] = [(f"m{fmt}{int(fl)}", "M", (fmt, fl))
+                                         for fmt in ("raw", "json", "quicklogger") for fl in (False, True)]
     n = 0
     for p in sorted((C.CORPUS / PROP).glob("*.case")) if (C.CORPUS / PROP).is_dir() else []:
         import json
@@ -489,10 +556,7 @@ def run(res: C.Result, deep: bool):
                 % (6 if deep else 5, 6, len(SMALL_PROGRAMS), len(ex), nrand[0], nrand[1],
                    4 if deep else 3))
 
-    def go(pool):
-        for i in range(0, len(items), 8000):
-            _feed(res, items[i:i + 8000], pool)
-    _with_pool(go)
+    _with_pool(lambda pool: _feed(res, items, pool))
     seen = set(res.extra["gate_labels"])
     res.extra["gate_labels_never_seen"] = [l for l in ALL_LABELS if l not in seen]
     res.assumptions = ["every access to an object both threads can reach is a scheduling point; code between two such "
@@ -525,12 +589,7 @@ def search(res: C.Result):
     for _ in range(3000):
         items.append((f"s{n}", "G", fine_random(rng, long=rng.random() < 0.3))); n += 1
 
-    def go(pool):
-        for i in range(0, len(items), 8000):
-            if [f for f in res.failures if not f.finding]:
-                break
-            _feed(res, items[i:i + 8000], pool)
-    _with_pool(go)
+    _with_pool(lambda pool: _feed(res, items, pool, until_failure=True))
 
 
 def replay(body: Dict[str, Any]) -> int:
